@@ -5,6 +5,9 @@ COMMON = [
     "instantiation, match_any! expansion, attribute stripping, field visibility, `|_, b|`->`|_a, b|`, "
     "`var!(-num)`->`Variable::from(-num)`, fn-pointer call -> NativeFn::call",
     "termination is not proved (partial correctness)",
+    "K runs CBMC with --max-field-sensitivity-array-size 256 (written into the scratch copy's Cargo.toml): a symex representation "
+    "setting, needed for heap objects above 64 bytes; the thorough-tier composite harnesses stub std::hash::RandomState::new with "
+    "fixed keys (HashMap iteration order is then fixed: no claim depends on it)",
 ]
 MACHINE = [
     "abstract machine: every effect of executing an instruction flows through the `&mut Interpreter` argument "
